@@ -178,23 +178,28 @@ def o_ivector(rng):
 def o_kmeans(rng):
     from bob.learn.em import KMeansMachine
 
-    K, D, N = 3, int(rng.integers(2, 4)), 30
+    K, D, N = int(rng.integers(3, 5)), int(rng.integers(2, 4)), 60
     centers = rng.normal(0, 4, (K, D))
     X = centers[rng.integers(0, K, N)] + rng.normal(size=(N, D))
     c0 = X[:K].copy()
     Q, _ = np.linalg.qr(rng.normal(size=(D, D)))
-    s = float(10 ** rng.uniform(-2, 2)) * rng.choice([-1.0, 1.0])
-    t = rng.normal(size=D) * 10
+    # change of units: moderate scale with an unrelated shift, or extreme scale (1e-6 .. 1e6) with a shift of the same order;
+    # the stopping rule is exercised too (relative criterion: the iteration at which training stops may not depend on the units)
+    extreme = bool(rng.integers(0, 2))
+    s = float(10 ** (rng.choice([-1.0, 1.0]) * rng.uniform(3, 7) if extreme else rng.uniform(-2, 2))) * rng.choice([-1.0, 1.0])
+    t = rng.normal(size=D) * 10 * (abs(s) if extreme else 1.0)
+    thr = None if rng.integers(0, 3) == 0 else float(10 ** rng.uniform(-6, -2))
+    c0 = X[:K].copy() if rng.integers(0, 3) == 0 else X[0] + 0.3 * rng.normal(size=(K, D))  # all in one blob: needs many iterations
     f = lambda Z: s * Z @ Q.T + t
     ms = []
     for (x, c) in ((X, c0), (f(X), f(c0))):
-        m = KMeansMachine(K, init_method=c, max_iter=5, convergence_threshold=None).fit(x)
+        m = KMeansMachine(K, init_method=c, max_iter=5 if thr is None else 60, convergence_threshold=thr).fit(x)
         ms.append((np.asarray(m.centroids_, float), np.asarray(m.predict(x)), float(m.average_min_distance), np.asarray(m.transform(x), float)))
     (c_a, l_a, j_a, d_a), (c_b, l_b, j_b, d_b) = ms
     if not np.array_equal(l_a, l_b):
         return {"sig": "kmeans-assignments-not-invariant", "what": "labels differ under a similarity transform"}
     if not core.close(c_b, f(c_a), 1e-7, 1e-7 * (abs(s) + np.max(np.abs(t)))):
-        return {"sig": "kmeans-centroids-not-equivariant", "what": f"{c_b.tolist()} vs {f(c_a).tolist()}"}
+        return {"sig": "kmeans-centroids-not-equivariant", "what": f"scale {s}, threshold {thr}: {c_b.tolist()} vs {f(c_a).tolist()}"}
     if not (core.close(j_b, s * s * j_a, 1e-7, 0) and core.close(d_b, s * s * d_a, 1e-6, 1e-9 * s * s)):
         return {"sig": "kmeans-distances-not-scaled", "what": f"criterion {j_b} vs s^2 * {j_a}"}
     return None
@@ -227,7 +232,9 @@ def search(ctx):
         elif kind == "ivector":
             add(o_ivector(np.random.default_rng(seed)), {"kind": kind, "seed": seed})
         else:
-            add(o_kmeans(np.random.default_rng(seed)), {"kind": kind, "seed": seed})
+            for sub in range(12):  # cheap: many (scale, threshold, init) draws per slot
+                ctx.count("search:kmeans-draw")
+                add(o_kmeans(np.random.default_rng(seed + sub)), {"kind": kind, "seed": seed + sub})
     return fails
 
 
